@@ -276,12 +276,14 @@ Record prow := {
   p_limiting : bool }.
 
 Definition is_eager (p : prow) : bool := match p_kind p with PEager => true | _ => false end.
-(* declared with a collection type: takes a generator, refuses 1 and 'a' *)
+(* declared with a collection type: takes a generator object but refuses the scalar 1
+   (whether or not it also takes a string: the bare Iterable ABC does, and is still a
+   collection type that must limit) *)
 Definition collection_typed (p : prow) : bool :=
-  is_eager p && p_acc_iter p && negb (p_acc_int p) && negb (p_acc_str p).
+  is_eager p && p_acc_iter p && negb (p_acc_int p).
 (* takes anything (declared `object`): NOT covered by the typed-parameter theorem *)
 Definition object_typed (p : prow) : bool :=
-  is_eager p && p_acc_iter p && (p_acc_int p || p_acc_str p).
+  is_eager p && p_acc_iter p && p_acc_int p.
 
 (* ------------------------------------------------------------------------- *)
 (* correspondence cases                                                      *)
